@@ -1,0 +1,11 @@
+//go:build !verif
+
+// Package verifhook exposes observation points used by the out-of-tree
+// verification harness. Without the `verif` build tag, it is a no-op.
+package verifhook
+
+// Enabled reports whether hooks are compiled in.
+const Enabled = false
+
+// Emit does nothing when hooks are disabled.
+func Emit(string, ...any) {}
